@@ -8,7 +8,7 @@ import JV.Proofs.JsonParserRefineStr
 namespace JV
 namespace Model
 namespace JsonParser
-open Spec.Rfc8259 (JT Flags parseValue parseElems parseMembers parseText parseString parseNumber skipWs startsWith)
+open Spec.Rfc8259 (JT Flags parseValue parseElems parseMembers parseText parseString parseNumber skipWs startsWith isWs)
 
 /-! ### the events of a value -/
 
@@ -130,15 +130,67 @@ theorem afterSt_succ (n : Nat) : afterSt (n + 1) = .expectCommaOrEnd := by simp 
 /-- the reference's flags for a parser configuration without comments and trailing commas -/
 abbrev strictFlags (cfg : Cfg) : Flags := { comments := false, trailingComma := false, maxDepth := cfg.maxDepth }
 
+/-- the machine skips, in every space-skipping state and with nothing reported, what the reference's `ws` skips (with comments
+    when `cm`), provided something follows -/
+def SkipOK (cfg : Cfg) (cm : Bool) : Prop :=
+  ∀ (s0 : St) (a w : Bytes), wsState s0.st = true → s0.err = none → skipWs cm (a.length + 1) a = some w → w ≠ [] →
+    Reach cfg s0 a s0 w []
+
+theorem skipOK_false (cfg : Cfg) : SkipOK cfg false := by
+  intro s0 a w hs he h _
+  rw [skipWs_eq _ _ (Nat.lt_succ_self _)] at h
+  simp only [Option.some.injEq] at h
+  have := Reach.ws cfg s0 a hs he
+  rwa [h] at this
+
+/-- the reference's flags allow no more than the parser's options: the same nesting limit, trailing commas only if the parser
+    has them, and `ws` (with or without comments) is skipped by the machine -/
+structure Rel (cfg : Cfg) (fl : Flags) : Prop where
+  depth : fl.maxDepth = cfg.maxDepth
+  tc : fl.trailingComma = true → cfg.trailingComma = true
+  skip : SkipOK cfg fl.comments
+
+theorem rel_strict (cfg : Cfg) : Rel cfg (strictFlags cfg) := ⟨rfl, (by intro h; cases h), skipOK_false cfg⟩
+
+/-- the reference's flags with comments off and the parser's own trailing-comma option -/
+abbrev tcFlags (cfg : Cfg) : Flags := { comments := false, trailingComma := cfg.trailingComma, maxDepth := cfg.maxDepth }
+
+theorem rel_tc (cfg : Cfg) : Rel cfg (tcFlags cfg) := ⟨rfl, fun h => h, skipOK_false cfg⟩
+
+theorem noDigitHead_of_skipWs (cm : Bool) (n : Nat) (s t : Bytes) (h : skipWs cm n s = some t) (ht : NoDigitHead t) :
+    NoDigitHead s := by
+  intro d r e
+  subst e
+  by_cases hw : isWs d = true
+  · rcases (isWs_iff d).1 hw with h | h | h | h <;> subst h <;> decide
+  · by_cases h47 : d = 47
+    · subst h47; decide
+    · have : skipWs cm n (d :: r) = some (d :: r) := by
+        cases n with
+        | zero => simp [skipWs]
+        | succ n => simp [skipWs, hw, h47]
+      rw [this] at h
+      simp only [Option.some.injEq] at h
+      exact ht d r h.symm
+
+theorem parseValue_nil (fl : Flags) (f d : Nat) : parseValue fl f d [] = none := by
+  cases f <;> simp [parseValue]
+
+theorem parseElems_nil (fl : Flags) (f d : Nat) : parseElems fl f d [] = none := by
+  cases f <;> simp [parseElems, parseValue_nil]
+
+theorem parseMembers_nil (fl : Flags) (f d : Nat) : parseMembers fl f d [] = none := by
+  cases f <;> simp [parseMembers, parseString]
+
 /-- what the induction proves at each fuel: values, array bodies, object bodies -/
-def SimAt (cfg : Cfg) (fuel : Nat) : Prop :=
-  (∀ (n : Nat) (s : Bytes) (v : JT) (r : Bytes), parseValue (strictFlags cfg) fuel n s = some (v, r) → NoDigitHead r →
+def SimAt (cfg : Cfg) (fl : Flags) (fuel : Nat) : Prop :=
+  (∀ (n : Nat) (s : Bytes) (v : JT) (r : Bytes), parseValue fl fuel n s = some (v, r) → NoDigitHead r →
     ∀ (stk : List PS) (s0 : St), Ctx stk n → s0.stack = stk → s0.level = n → s0.err = none → vState s0.st = true →
       ∃ s1, Reach cfg s0 s s1 r (eventsOf v) ∧ Shape s1 (afterSt n) stk n) ∧
-  (∀ (n : Nat) (s : Bytes) (xs : List JT) (r : Bytes), parseElems (strictFlags cfg) fuel (n + 1) s = some (xs, r) →
+  (∀ (n : Nat) (s : Bytes) (xs : List JT) (r : Bytes), parseElems fl fuel (n + 1) s = some (xs, r) →
     ∀ (stk : List PS) (s0 : St), Ctx stk n → s0.stack = .array :: stk → s0.level = n + 1 → s0.err = none → vState s0.st = true →
       ∃ s1, Reach cfg s0 s s1 r (eventsOfElems xs ++ [.endArray]) ∧ Shape s1 (afterSt n) stk n) ∧
-  (∀ (n : Nat) (s : Bytes) (ms : List (Bytes × JT)) (r : Bytes), parseMembers (strictFlags cfg) fuel (n + 1) s = some (ms, r) →
+  (∀ (n : Nat) (s : Bytes) (ms : List (Bytes × JT)) (r : Bytes), parseMembers fl fuel (n + 1) s = some (ms, r) →
     ∀ (stk : List PS) (s0 : St), Ctx stk n → s0.stack = .object :: stk → s0.level = n + 1 → s0.err = none →
       (s0.st = .expectMemberNameOrEnd ∨ s0.st = .expectMemberName) →
       ∃ s1, Reach cfg s0 s s1 r (eventsOfMembers ms ++ [.endObject]) ∧ Shape s1 (afterSt n) stk n)
@@ -166,6 +218,30 @@ theorem reach_endObject (cfg : Cfg) (s : St) (b : Bytes) (stk : List PS) (n : Na
     (hstk : s.stack = .object :: stk) (hl : s.level = n + 1) :
     ∃ s1, Reach cfg s (125 :: b) s1 b [.endObject] ∧ Shape s1 (afterSt n) stk n :=
   ⟨_, Reach.char (feedChar_endObject cfg s stk n hs he hstk hl) he (by simp [er_cons, Ev.eraseNoesc]), rfl, rfl, rfl⟩
+
+/-- `]` directly after a comma, with `allow_trailing_comma` -/
+theorem feedChar_endArray_trailing (cfg : Cfg) (htc : cfg.trailingComma = true) (s : St) (stk : List PS) (n : Nat)
+    (hs : s.st = .expectValue) (he : s.err = none) (hstk : s.stack = .array :: stk) (hl : s.level = n + 1) :
+    feedChar cfg s 93 = { s with st := afterSt n, stack := stk, level := n, evs := .endArray :: s.evs } := by
+  rw [← endArray_ctx s stk n hstk hl]
+  simp [feedChar, he, stepChar, hs, isCtl, spaceOrSlash, valueStart, parent, hstk, htc]
+
+/-- `}` directly after a comma, with `allow_trailing_comma` -/
+theorem feedChar_endObject_trailing (cfg : Cfg) (htc : cfg.trailingComma = true) (s : St) (stk : List PS) (n : Nat)
+    (hs : s.st = .expectMemberName) (he : s.err = none) (hstk : s.stack = .object :: stk) (hl : s.level = n + 1) :
+    feedChar cfg s 125 = { s with st := afterSt n, stack := stk, level := n, evs := .endObject :: s.evs } := by
+  rw [← endObject_ctx s stk n hstk hl]
+  simp [feedChar, he, stepChar, hs, isCtl, spaceOrSlash, htc]
+
+theorem reach_endArray_trailing (cfg : Cfg) (htc : cfg.trailingComma = true) (s : St) (b : Bytes) (stk : List PS) (n : Nat)
+    (hs : s.st = .expectValue) (he : s.err = none) (hstk : s.stack = .array :: stk) (hl : s.level = n + 1) :
+    ∃ s1, Reach cfg s (93 :: b) s1 b [.endArray] ∧ Shape s1 (afterSt n) stk n :=
+  ⟨_, Reach.char (feedChar_endArray_trailing cfg htc s stk n hs he hstk hl) he (by simp [er_cons, Ev.eraseNoesc]), rfl, rfl, rfl⟩
+
+theorem reach_endObject_trailing (cfg : Cfg) (htc : cfg.trailingComma = true) (s : St) (b : Bytes) (stk : List PS) (n : Nat)
+    (hs : s.st = .expectMemberName) (he : s.err = none) (hstk : s.stack = .object :: stk) (hl : s.level = n + 1) :
+    ∃ s1, Reach cfg s (125 :: b) s1 b [.endObject] ∧ Shape s1 (afterSt n) stk n :=
+  ⟨_, Reach.char (feedChar_endObject_trailing cfg htc s stk n hs he hstk hl) he (by simp [er_cons, Ev.eraseNoesc]), rfl, rfl, rfl⟩
 
 theorem reach_comma_array (cfg : Cfg) (s : St) (b : Bytes) (stk : List PS) (hs : s.st = .expectCommaOrEnd) (he : s.err = none)
     (hstk : s.stack = .array :: stk) :
@@ -228,7 +304,7 @@ theorem reach_key (cfg : Cfg) (s0 : St) (s b r : Bytes) (hp : parseString s = so
   obtain ⟨s1, e1, e2, e3, e4, e5, e6⟩ := feed_string_key cfg s0 s b r hp hs he
   exact ⟨s1, Reach.of_feed e1 e5 (by rw [e6]; simp [er_cons, Ev.eraseNoesc]), e2, e3, e4⟩
 
-theorem simAt_zero (cfg : Cfg) : SimAt cfg 0 := by
+theorem simAt_zero (cfg : Cfg) (fl : Flags) : SimAt cfg fl 0 := by
   refine ⟨?_, ?_, ?_⟩
   · intro n s v r h; simp [parseValue] at h
   · intro n s xs r h; simp [parseElems] at h
@@ -238,8 +314,8 @@ theorem dropWs_noDigit_of_head (s : Bytes) (c : Nat) (rest : Bytes) (h : dropWs 
     NoDigitHead s :=
   noDigitHead_of_dropWs s (by rw [h]; exact noDigitHead_cons c rest hc)
 
-theorem sim_value (cfg : Cfg) (fuel : Nat) (ih : SimAt cfg fuel) :
-    ∀ (n : Nat) (s : Bytes) (v : JT) (r : Bytes), parseValue (strictFlags cfg) (fuel + 1) n s = some (v, r) → NoDigitHead r →
+theorem sim_value (cfg : Cfg) (fl : Flags) (R : Rel cfg fl) (fuel : Nat) (ih : SimAt cfg fl fuel) :
+    ∀ (n : Nat) (s : Bytes) (v : JT) (r : Bytes), parseValue fl (fuel + 1) n s = some (v, r) → NoDigitHead r →
     ∀ (stk : List PS) (s0 : St), Ctx stk n → s0.stack = stk → s0.level = n → s0.err = none → vState s0.st = true →
       ∃ s1, Reach cfg s0 s s1 r (eventsOf v) ∧ Shape s1 (afterSt n) stk n := by
   obtain ⟨_, ihE, ihM⟩ := ih
@@ -251,64 +327,74 @@ theorem sim_value (cfg : Cfg) (fuel : Nat) (ih : SimAt cfg fuel) :
     by_cases h123 : c = 123
     · subst h123
       simp only [if_true] at h
-      by_cases hd : n + 1 > cfg.maxDepth
+      by_cases hd : n + 1 > fl.maxDepth
       · simp [hd] at h
       · simp only [hd, if_false] at h
-        rw [skipWs_eq _ _ (Nat.lt_succ_self _)] at h
-        obtain ⟨sB, RB, hB1, hB2, hB3⟩ := reach_beginObject cfg s0 cs hvs he (by rw [hlvl]; exact hd)
+        obtain ⟨sB, RB, hB1, hB2, hB3⟩ := reach_beginObject cfg s0 cs hvs he (by rw [hlvl, ← R.depth]; exact hd)
         rw [hstk] at hB2; rw [hlvl] at hB3
-        have RW := Reach.ws cfg sB cs (by rw [hB1]; rfl) RB.2.1
-        split at h
-        · rename_i heq; simp at heq
-        · rename_i rest heq
-          simp only [Option.some.injEq] at heq
-          simp only [Option.some.injEq, Prod.mk.injEq] at h
-          obtain ⟨rfl, rfl⟩ := h
-          rw [heq] at RW
-          obtain ⟨sE, RE, hE⟩ := reach_endObject cfg sB rest stk n (Or.inr hB1) RB.2.1 hB2 hB3
-          exact ⟨sE, (RB.trans (RW.trans RE)).cast (by simp [eventsOf, eventsOfMembers]), hE⟩
-        · rename_i s1 _ heq
-          simp only [Option.some.injEq] at heq
-          cases hm : parseMembers (strictFlags cfg) fuel (n + 1) s1 with
-          | none => simp [hm] at h
-          | some p =>
-            obtain ⟨ms, r'⟩ := p
-            simp only [hm, Option.map_some, Option.some.injEq, Prod.mk.injEq] at h
-            obtain ⟨rfl, rfl⟩ := h
-            rw [heq] at RW
-            obtain ⟨sM, RM, hM⟩ := ihM n s1 ms r' hm stk sB hctx hB2 hB3 RB.2.1 (Or.inl hB1)
-            exact ⟨sM, (RB.trans (RW.trans RM)).cast (by simp [eventsOf]), hM⟩
-    · simp only [h123, if_false] at h
-      by_cases h91 : c = 91
-      · subst h91
-        simp only [if_true] at h
-        by_cases hd : n + 1 > cfg.maxDepth
-        · simp [hd] at h
-        · simp only [hd, if_false] at h
-          rw [skipWs_eq _ _ (Nat.lt_succ_self _)] at h
-          obtain ⟨sB, RB, hB1, hB2, hB3⟩ := reach_beginArray cfg s0 cs hvs he (by rw [hlvl]; exact hd)
-          rw [hstk] at hB2; rw [hlvl] at hB3
-          have RW := Reach.ws cfg sB cs (by rw [hB1]; rfl) RB.2.1
+        cases hw : skipWs fl.comments (cs.length + 1) cs with
+        | none => simp [hw] at h
+        | some w =>
+          rw [hw] at h
           split at h
           · rename_i heq; simp at heq
           · rename_i rest heq
             simp only [Option.some.injEq] at heq
             simp only [Option.some.injEq, Prod.mk.injEq] at h
             obtain ⟨rfl, rfl⟩ := h
+            have RW := R.skip sB cs w (by rw [hB1]; rfl) RB.2.1 hw (by rw [heq]; simp)
             rw [heq] at RW
-            obtain ⟨sE, RE, hE⟩ := reach_endArray cfg sB rest stk n (Or.inr hB1) RB.2.1 hB2 hB3
-            exact ⟨sE, (RB.trans (RW.trans RE)).cast (by simp [eventsOf, eventsOfElems]), hE⟩
+            obtain ⟨sE, RE, hE⟩ := reach_endObject cfg sB rest stk n (Or.inr hB1) RB.2.1 hB2 hB3
+            exact ⟨sE, (RB.trans (RW.trans RE)).cast (by simp [eventsOf, eventsOfMembers]), hE⟩
           · rename_i s1 _ heq
             simp only [Option.some.injEq] at heq
-            cases hm : parseElems (strictFlags cfg) fuel (n + 1) s1 with
+            cases hm : parseMembers fl fuel (n + 1) s1 with
             | none => simp [hm] at h
             | some p =>
-              obtain ⟨xs, r'⟩ := p
+              obtain ⟨ms, r'⟩ := p
               simp only [hm, Option.map_some, Option.some.injEq, Prod.mk.injEq] at h
               obtain ⟨rfl, rfl⟩ := h
+              have RW := R.skip sB cs w (by rw [hB1]; rfl) RB.2.1 hw
+                (by rw [heq]; intro e; rw [e, parseMembers_nil] at hm; cases hm)
               rw [heq] at RW
-              obtain ⟨sM, RM, hM⟩ := ihE n s1 xs r' hm stk sB hctx hB2 hB3 RB.2.1 (by rw [hB1]; rfl)
+              obtain ⟨sM, RM, hM⟩ := ihM n s1 ms r' hm stk sB hctx hB2 hB3 RB.2.1 (Or.inl hB1)
               exact ⟨sM, (RB.trans (RW.trans RM)).cast (by simp [eventsOf]), hM⟩
+    · simp only [h123, if_false] at h
+      by_cases h91 : c = 91
+      · subst h91
+        simp only [if_true] at h
+        by_cases hd : n + 1 > fl.maxDepth
+        · simp [hd] at h
+        · simp only [hd, if_false] at h
+          obtain ⟨sB, RB, hB1, hB2, hB3⟩ := reach_beginArray cfg s0 cs hvs he (by rw [hlvl, ← R.depth]; exact hd)
+          rw [hstk] at hB2; rw [hlvl] at hB3
+          cases hw : skipWs fl.comments (cs.length + 1) cs with
+          | none => simp [hw] at h
+          | some w =>
+            rw [hw] at h
+            split at h
+            · rename_i heq; simp at heq
+            · rename_i rest heq
+              simp only [Option.some.injEq] at heq
+              simp only [Option.some.injEq, Prod.mk.injEq] at h
+              obtain ⟨rfl, rfl⟩ := h
+              have RW := R.skip sB cs w (by rw [hB1]; rfl) RB.2.1 hw (by rw [heq]; simp)
+              rw [heq] at RW
+              obtain ⟨sE, RE, hE⟩ := reach_endArray cfg sB rest stk n (Or.inr hB1) RB.2.1 hB2 hB3
+              exact ⟨sE, (RB.trans (RW.trans RE)).cast (by simp [eventsOf, eventsOfElems]), hE⟩
+            · rename_i s1 _ heq
+              simp only [Option.some.injEq] at heq
+              cases hm : parseElems fl fuel (n + 1) s1 with
+              | none => simp [hm] at h
+              | some p =>
+                obtain ⟨xs, r'⟩ := p
+                simp only [hm, Option.map_some, Option.some.injEq, Prod.mk.injEq] at h
+                obtain ⟨rfl, rfl⟩ := h
+                have RW := R.skip sB cs w (by rw [hB1]; rfl) RB.2.1 hw
+                  (by rw [heq]; intro e; rw [e, parseElems_nil] at hm; cases hm)
+                rw [heq] at RW
+                obtain ⟨sM, RM, hM⟩ := ihE n s1 xs r' hm stk sB hctx hB2 hB3 RB.2.1 (by rw [hB1]; rfl)
+                exact ⟨sM, (RB.trans (RW.trans RM)).cast (by simp [eventsOf]), hM⟩
       · simp only [h91, if_false] at h
         by_cases h34 : c = 34
         · subst h34
@@ -370,62 +456,81 @@ theorem sim_value (cfg : Cfg) (fuel : Nat) (ih : SimAt cfg fuel) :
                   obtain ⟨s1, R1, h1⟩ := reach_number cfg hctx s0 c cs lit r' hp hnd hvs he hstk hlvl
                   exact ⟨s1, R1.cast (by simp [eventsOf]), h1⟩
 
-theorem sim_elems (cfg : Cfg) (fuel : Nat) (ih : SimAt cfg fuel) :
-    ∀ (n : Nat) (s : Bytes) (xs : List JT) (r : Bytes), parseElems (strictFlags cfg) (fuel + 1) (n + 1) s = some (xs, r) →
+theorem sim_elems (cfg : Cfg) (fl : Flags) (R : Rel cfg fl) (fuel : Nat) (ih : SimAt cfg fl fuel) :
+    ∀ (n : Nat) (s : Bytes) (xs : List JT) (r : Bytes), parseElems fl (fuel + 1) (n + 1) s = some (xs, r) →
     ∀ (stk : List PS) (s0 : St), Ctx stk n → s0.stack = .array :: stk → s0.level = n + 1 → s0.err = none → vState s0.st = true →
       ∃ s1, Reach cfg s0 s s1 r (eventsOfElems xs ++ [.endArray]) ∧ Shape s1 (afterSt n) stk n := by
   obtain ⟨ihV, ihE, _⟩ := ih
   intro n s xs r h stk s0 hctx hstk hlvl he hvs
   simp only [parseElems] at h
-  cases hv : parseValue (strictFlags cfg) fuel (n + 1) s with
+  cases hv : parseValue fl fuel (n + 1) s with
   | none => simp [hv] at h
   | some p =>
     obtain ⟨v, s1⟩ := p
     simp only [hv] at h
-    rw [skipWs_eq _ _ (Nat.lt_succ_self _)] at h
+    cases hw1 : skipWs fl.comments (s1.length + 1) s1 with
+    | none => simp [hw1] at h
+    | some w1 =>
+    rw [hw1] at h
     split at h
     · -- the last element
       rename_i rest heq
       simp only [Option.some.injEq] at heq
       simp only [Option.some.injEq, Prod.mk.injEq] at h
       obtain ⟨rfl, rfl⟩ := h
-      obtain ⟨sV, RV, hV1, hV2, hV3⟩ := ihV (n + 1) s v s1 hv (dropWs_noDigit_of_head s1 93 rest heq (by decide))
+      rw [heq] at hw1
+      obtain ⟨sV, RV, hV1, hV2, hV3⟩ := ihV (n + 1) s v s1 hv
+        (noDigitHead_of_skipWs _ _ _ _ hw1 (noDigitHead_cons 93 rest (by decide)))
         (.array :: stk) s0 (Ctx.arr hctx) hstk hlvl he hvs
       rw [afterSt_succ] at hV1
-      have RW := Reach.ws cfg sV s1 (by rw [hV1]; rfl) RV.2.1
-      rw [heq] at RW
+      have RW := R.skip sV s1 _ (by rw [hV1]; rfl) RV.2.1 hw1 (by simp)
       obtain ⟨sE, RE, hE⟩ := reach_endArray cfg sV rest stk n (Or.inl hV1) RV.2.1 hV2 hV3
       exact ⟨sE, (RV.trans (RW.trans RE)).cast (by simp [eventsOfElems]), hE⟩
     · -- a comma
       rename_i s2 heq
       simp only [Option.some.injEq] at heq
-      rw [skipWs_eq _ _ (Nat.lt_succ_self _)] at h
-      obtain ⟨sV, RV, hV1, hV2, hV3⟩ := ihV (n + 1) s v s1 hv (dropWs_noDigit_of_head s1 44 s2 heq (by decide))
+      rw [heq] at hw1
+      obtain ⟨sV, RV, hV1, hV2, hV3⟩ := ihV (n + 1) s v s1 hv
+        (noDigitHead_of_skipWs _ _ _ _ hw1 (noDigitHead_cons 44 s2 (by decide)))
         (.array :: stk) s0 (Ctx.arr hctx) hstk hlvl he hvs
       rw [afterSt_succ] at hV1
-      have RW := Reach.ws cfg sV s1 (by rw [hV1]; rfl) RV.2.1
-      rw [heq] at RW
+      have RW := R.skip sV s1 _ (by rw [hV1]; rfl) RV.2.1 hw1 (by simp)
       obtain ⟨sC, RC, hC1, hC2, hC3⟩ := reach_comma_array cfg sV s2 stk hV1 RV.2.1 hV2
       rw [hV2] at hC2; rw [hV3] at hC3
-      have RW2 := Reach.ws cfg sC s2 (by rw [hC1]; rfl) RC.2.1
+      cases hw2 : skipWs fl.comments (s2.length + 1) s2 with
+      | none => simp [hw2] at h
+      | some w2 =>
+      rw [hw2] at h
       split at h
       · rename_i heq2; simp at heq2
-      · simp at h
+      · -- a trailing comma
+        rename_i rest heq2
+        simp only [Option.some.injEq] at heq2
+        rw [heq2] at hw2
+        by_cases htc : fl.trailingComma = true
+        · simp only [htc, if_true, Option.some.injEq, Prod.mk.injEq] at h
+          obtain ⟨rfl, rfl⟩ := h
+          have RW2 := R.skip sC s2 _ (by rw [hC1]; rfl) RC.2.1 hw2 (by simp)
+          obtain ⟨sE, RE, hE⟩ := reach_endArray_trailing cfg (R.tc htc) sC rest stk n hC1 RC.2.1 hC2 hC3
+          exact ⟨sE, (RV.trans (RW.trans (RC.trans (RW2.trans RE)))).cast (by simp [eventsOfElems]), hE⟩
+        · simp [htc] at h
       · rename_i s3 _ heq2
         simp only [Option.some.injEq] at heq2
-        cases hm : parseElems (strictFlags cfg) fuel (n + 1) s3 with
+        cases hm : parseElems fl fuel (n + 1) s3 with
         | none => simp [hm] at h
         | some p =>
           obtain ⟨xs', r'⟩ := p
           simp only [hm, Option.map_some, Option.some.injEq, Prod.mk.injEq] at h
           obtain ⟨rfl, rfl⟩ := h
-          rw [heq2] at RW2
+          rw [heq2] at hw2
+          have RW2 := R.skip sC s2 _ (by rw [hC1]; rfl) RC.2.1 hw2
+            (by intro e; rw [e, parseElems_nil] at hm; cases hm)
           obtain ⟨sM, RM, hM⟩ := ihE n s3 xs' r' hm stk sC hctx hC2 hC3 RC.2.1 (by rw [hC1]; rfl)
           exact ⟨sM, (RV.trans (RW.trans (RC.trans (RW2.trans RM)))).cast (by simp [eventsOfElems]), hM⟩
     · simp at h
 
-theorem sim_members (cfg : Cfg) (fuel : Nat) (ih : SimAt cfg fuel) :
-    ∀ (n : Nat) (s : Bytes) (ms : List (Bytes × JT)) (r : Bytes), parseMembers (strictFlags cfg) (fuel + 1) (n + 1) s = some (ms, r) →
+theorem sim_members (cfg : Cfg) (fl : Flags) (R : Rel cfg fl) (fuel : Nat) (ih : SimAt cfg fl fuel) :
+    ∀ (n : Nat) (s : Bytes) (ms : List (Bytes × JT)) (r : Bytes), parseMembers fl (fuel + 1) (n + 1) s = some (ms, r) →
     ∀ (stk : List PS) (s0 : St), Ctx stk n → s0.stack = .object :: stk → s0.level = n + 1 → s0.err = none →
       (s0.st = .expectMemberNameOrEnd ∨ s0.st = .expectMemberName) →
       ∃ s1, Reach cfg s0 s s1 r (eventsOfMembers ms ++ [.endObject]) ∧ Shape s1 (afterSt n) stk n := by
@@ -437,80 +542,129 @@ theorem sim_members (cfg : Cfg) (fuel : Nat) (ih : SimAt cfg fuel) :
   | some p =>
     obtain ⟨k, s1⟩ := p
     simp only [hk] at h
-    rw [skipWs_eq _ _ (Nat.lt_succ_self _)] at h
     obtain ⟨sK, RK, hK1, hK2, hK3⟩ := reach_key cfg s0 s k s1 hk hs0 he
     rw [hstk] at hK2; rw [hlvl] at hK3
-    have RW1 := Reach.ws cfg sK s1 (by rw [hK1]; rfl) RK.2.1
+    cases hw1 : skipWs fl.comments (s1.length + 1) s1 with
+    | none => simp [hw1] at h
+    | some w1 =>
+    rw [hw1] at h
     split at h
     · rename_i s2 heq
       simp only [Option.some.injEq] at heq
-      rw [heq] at RW1
+      rw [heq] at hw1
+      have RW1 := R.skip sK s1 _ (by rw [hK1]; rfl) RK.2.1 hw1 (by simp)
       obtain ⟨sC, RC, hC1, hC2, hC3⟩ := reach_colon cfg sK s2 hK1 RK.2.1
       rw [hK2] at hC2; rw [hK3] at hC3
-      have RW2 := Reach.ws cfg sC s2 (by rw [hC1]; rfl) RC.2.1
-      rw [skipWs_eq _ _ (Nat.lt_succ_self _)] at h
-      simp only at h
-      cases hv : parseValue (strictFlags cfg) fuel (n + 1) (dropWs s2) with
+      cases hw2 : skipWs fl.comments (s2.length + 1) s2 with
+      | none => simp [hw2] at h
+      | some s3 =>
+      simp only [hw2] at h
+      cases hv : parseValue fl fuel (n + 1) s3 with
       | none => simp [hv] at h
       | some p =>
         obtain ⟨v, s4⟩ := p
         simp only [hv] at h
-        rw [skipWs_eq _ _ (Nat.lt_succ_self _)] at h
+        have RW2 := R.skip sC s2 _ (by rw [hC1]; rfl) RC.2.1 hw2
+          (by intro e; rw [e, parseValue_nil] at hv; cases hv)
+        cases hw4 : skipWs fl.comments (s4.length + 1) s4 with
+        | none => simp [hw4] at h
+        | some w4 =>
+        rw [hw4] at h
         split at h
         · -- the last member
           rename_i rest heq4
           simp only [Option.some.injEq] at heq4
           simp only [Option.some.injEq, Prod.mk.injEq] at h
           obtain ⟨rfl, rfl⟩ := h
-          obtain ⟨sV, RV, hV1, hV2, hV3⟩ := ihV (n + 1) (dropWs s2) v s4 hv (dropWs_noDigit_of_head s4 125 rest heq4 (by decide))
+          rw [heq4] at hw4
+          obtain ⟨sV, RV, hV1, hV2, hV3⟩ := ihV (n + 1) s3 v s4 hv
+            (noDigitHead_of_skipWs _ _ _ _ hw4 (noDigitHead_cons 125 rest (by decide)))
             (.object :: stk) sC (Ctx.obj hctx) hC2 hC3 RC.2.1 (by rw [hC1]; rfl)
           rw [afterSt_succ] at hV1
-          have RW3 := Reach.ws cfg sV s4 (by rw [hV1]; rfl) RV.2.1
-          rw [heq4] at RW3
+          have RW3 := R.skip sV s4 _ (by rw [hV1]; rfl) RV.2.1 hw4 (by simp)
           obtain ⟨sE, RE, hE⟩ := reach_endObject cfg sV rest stk n (Or.inl hV1) RV.2.1 hV2 hV3
           exact ⟨sE, (RK.trans (RW1.trans (RC.trans (RW2.trans (RV.trans (RW3.trans RE)))))).cast
             (by simp [eventsOfMembers]), hE⟩
         · -- a comma
           rename_i s5 heq4
           simp only [Option.some.injEq] at heq4
-          rw [skipWs_eq _ _ (Nat.lt_succ_self _)] at h
-          obtain ⟨sV, RV, hV1, hV2, hV3⟩ := ihV (n + 1) (dropWs s2) v s4 hv (dropWs_noDigit_of_head s4 44 s5 heq4 (by decide))
+          rw [heq4] at hw4
+          obtain ⟨sV, RV, hV1, hV2, hV3⟩ := ihV (n + 1) s3 v s4 hv
+            (noDigitHead_of_skipWs _ _ _ _ hw4 (noDigitHead_cons 44 s5 (by decide)))
             (.object :: stk) sC (Ctx.obj hctx) hC2 hC3 RC.2.1 (by rw [hC1]; rfl)
           rw [afterSt_succ] at hV1
-          have RW3 := Reach.ws cfg sV s4 (by rw [hV1]; rfl) RV.2.1
-          rw [heq4] at RW3
+          have RW3 := R.skip sV s4 _ (by rw [hV1]; rfl) RV.2.1 hw4 (by simp)
           obtain ⟨sD, RD, hD1, hD2, hD3⟩ := reach_comma_object cfg sV s5 stk hV1 RV.2.1 hV2
           rw [hV2] at hD2; rw [hV3] at hD3
-          have RW4 := Reach.ws cfg sD s5 (by rw [hD1]; rfl) RD.2.1
+          cases hw5 : skipWs fl.comments (s5.length + 1) s5 with
+          | none => simp [hw5] at h
+          | some w5 =>
+          rw [hw5] at h
           split at h
           · rename_i heq5; simp at heq5
-          · simp at h
+          · -- a trailing comma
+            rename_i rest heq5
+            simp only [Option.some.injEq] at heq5
+            rw [heq5] at hw5
+            by_cases htc : fl.trailingComma = true
+            · simp only [htc, if_true, Option.some.injEq, Prod.mk.injEq] at h
+              obtain ⟨rfl, rfl⟩ := h
+              have RW4 := R.skip sD s5 _ (by rw [hD1]; rfl) RD.2.1 hw5 (by simp)
+              obtain ⟨sE, RE, hE⟩ := reach_endObject_trailing cfg (R.tc htc) sD rest stk n hD1 RD.2.1 hD2 hD3
+              exact ⟨sE, (RK.trans (RW1.trans (RC.trans (RW2.trans (RV.trans (RW3.trans (RD.trans (RW4.trans RE)))))))).cast
+                (by simp [eventsOfMembers]), hE⟩
+            · simp [htc] at h
           · rename_i s6 _ heq5
             simp only [Option.some.injEq] at heq5
-            cases hm : parseMembers (strictFlags cfg) fuel (n + 1) s6 with
+            cases hm : parseMembers fl fuel (n + 1) s6 with
             | none => simp [hm] at h
             | some p =>
               obtain ⟨ms', r'⟩ := p
               simp only [hm, Option.map_some, Option.some.injEq, Prod.mk.injEq] at h
               obtain ⟨rfl, rfl⟩ := h
-              rw [heq5] at RW4
+              rw [heq5] at hw5
+              have RW4 := R.skip sD s5 _ (by rw [hD1]; rfl) RD.2.1 hw5
+                (by intro e; rw [e, parseMembers_nil] at hm; cases hm)
               obtain ⟨sM, RM, hM⟩ := ihM n s6 ms' r' hm stk sD hctx hD2 hD3 RD.2.1 (Or.inr hD1)
               exact ⟨sM, (RK.trans (RW1.trans (RC.trans (RW2.trans (RV.trans (RW3.trans (RD.trans (RW4.trans RM)))))))).cast
                 (by simp [eventsOfMembers]), hM⟩
         · simp at h
     · simp at h
 
-theorem simAt (cfg : Cfg) : ∀ fuel, SimAt cfg fuel
-  | 0 => simAt_zero cfg
-  | fuel + 1 => ⟨sim_value cfg fuel (simAt cfg fuel), sim_elems cfg fuel (simAt cfg fuel), sim_members cfg fuel (simAt cfg fuel)⟩
+theorem simAt (cfg : Cfg) (fl : Flags) (R : Rel cfg fl) : ∀ fuel, SimAt cfg fl fuel
+  | 0 => simAt_zero cfg fl
+  | fuel + 1 => ⟨sim_value cfg fl R fuel (simAt cfg fl R fuel), sim_elems cfg fl R fuel (simAt cfg fl R fuel),
+      sim_members cfg fl R fuel (simAt cfg fl R fuel)⟩
 
-/-- the whole document -/
-theorem run_complete (cfg : Cfg) (bs : Bytes) (v : JT) (h : parseText (strictFlags cfg) bs = some v) :
+/-- the whole document, for reference flags the parser's options cover: the leading `ws`, the value, and then plain white space
+    only (after the root value the parser's `check_done` knows no comments) -/
+theorem run_complete_rel (cfg : Cfg) (fl : Flags) (R : Rel cfg fl) (bs s1 s2 : Bytes) (v : JT)
+    (h1 : skipWs fl.comments (bs.length + 1) bs = some s1) (h2 : parseValue fl (s1.length + 1) 0 s1 = some (v, s2))
+    (h3 : dropWs s2 = []) :
+    accepted (run cfg bs) = true ∧ er (run cfg bs).evs.reverse = eventsOf v := by
+  have RW := R.skip init bs s1 rfl rfl h1 (by intro e; rw [e, parseValue_nil] at h2; cases h2)
+  obtain ⟨sV, RV, hV1, _, _⟩ := (simAt cfg fl R _).1 0 s1 v s2 h2
+    (noDigitHead_of_dropWs s2 (by rw [h3]; exact noDigitHead_nil)) [.root] init Ctx.root rfl rfl rfl rfl
+  have R' := RW.trans RV
+  obtain ⟨sF, f1, f2, f3, f4⟩ := feed_ws_accept cfg s2 sV (Or.inl hV1) RV.2.1 h3
+  obtain ⟨a1, a2⟩ := finish_accept sF f2 f3
+  have hrun : run cfg bs = finish sF := by
+    unfold run; rw [R'.1, f1]
+  rw [hrun]
+  refine ⟨a1, ?_⟩
+  rw [a2, f4]
+  have := R'.2.2
+  simp only [init, er, List.map_nil, List.append_nil, List.nil_append] at this
+  simp only [er, List.map_reverse, this, List.reverse_reverse]
+
+/-- the whole document, reference without comments -/
+theorem run_complete_nc (cfg : Cfg) (fl : Flags) (R : Rel cfg fl) (hc : fl.comments = false) (bs : Bytes) (v : JT)
+    (h : parseText fl bs = some v) :
     accepted (run cfg bs) = true ∧ er (run cfg bs).evs.reverse = eventsOf v := by
   unfold parseText at h
-  rw [skipWs_eq _ _ (Nat.lt_succ_self _)] at h
+  rw [hc, skipWs_eq _ _ (Nat.lt_succ_self _)] at h
   simp only at h
-  cases hv : parseValue (strictFlags cfg) ((dropWs bs).length + 1) 0 (dropWs bs) with
+  cases hv : parseValue fl ((dropWs bs).length + 1) 0 (dropWs bs) with
   | none => simp [hv] at h
   | some p =>
     obtain ⟨v', s2⟩ := p
@@ -520,21 +674,18 @@ theorem run_complete (cfg : Cfg) (bs : Bytes) (v : JT) (h : parseText (strictFla
     · rename_i heq
       simp only [Option.some.injEq] at heq h
       subst h
-      have RW := Reach.ws cfg init bs rfl rfl
-      obtain ⟨sV, RV, hV1, _, _⟩ := (simAt cfg _).1 0 (dropWs bs) v' s2 hv
-        (noDigitHead_of_dropWs s2 (by rw [heq]; exact noDigitHead_nil)) [.root] init Ctx.root rfl rfl rfl rfl
-      have R := RW.trans RV
-      obtain ⟨sF, f1, f2, f3, f4⟩ := feed_ws_accept cfg s2 sV (Or.inl hV1) RV.2.1 heq
-      obtain ⟨a1, a2⟩ := finish_accept sF f2 f3
-      have hrun : run cfg bs = finish sF := by
-        unfold run; rw [R.1, f1]
-      rw [hrun]
-      refine ⟨a1, ?_⟩
-      rw [a2, f4]
-      have := R.2.2
-      simp only [init, er, List.map_nil, List.append_nil, List.nil_append] at this
-      simp only [er, List.map_reverse, this, List.reverse_reverse]
+      exact run_complete_rel cfg fl R bs (dropWs bs) s2 v' (by rw [hc]; exact skipWs_eq _ _ (Nat.lt_succ_self _)) hv heq
     · simp at h
+
+/-- the whole document -/
+theorem run_complete (cfg : Cfg) (bs : Bytes) (v : JT) (h : parseText (strictFlags cfg) bs = some v) :
+    accepted (run cfg bs) = true ∧ er (run cfg bs).evs.reverse = eventsOf v :=
+  run_complete_nc cfg (strictFlags cfg) (rel_strict cfg) rfl bs v h
+
+/-- the whole document, with the parser's own trailing-comma option -/
+theorem run_complete_tc (cfg : Cfg) (bs : Bytes) (v : JT) (h : parseText (tcFlags cfg) bs = some v) :
+    accepted (run cfg bs) = true ∧ er (run cfg bs).evs.reverse = eventsOf v :=
+  run_complete_nc cfg (tcFlags cfg) (rel_tc cfg) rfl bs v h
 
 end JsonParser
 end Model
